@@ -155,11 +155,12 @@ def refine_line(rnd, info, allow_scale=True):
 BAD_ANY = ["make_dims0", "make_outs_neg", "make_depth_neg", "make_rule_seq", "make_rule_local", "make_order",
            "make_wavelet_order", "make_aw_size", "make_ll_size", "read_missing", "read_garbage", "read_future",
            "read_unknown_type", "read_trunc_asc", "read_trunc_bin", "read_bin_garbage"]
-BAD_NONEMPTY = ["update_neg", "update_aw_size", "update_ll_size", "transform_size", "conformal_size", "load_size",
+BAD_NONEMPTY = ["transform_size", "load_size",
                 "aniso_growth", "aniso_output", "aniso_ll_size", "surp_tol_neg", "surp_output", "surp_ll_size",
                 "surpl_output", "surpl_ll_size", "cand_ll_size", "cand_output", "cand_aw_size", "candl_output",
-                "candl_ll_size", "loadc_ysize", "setcoef_size"]
-BAD_LOADED = ["eval_size", "batch_size", "iweights_size", "dweights_size", "diff_size", "surpl_scale_size"]
+                "candl_ll_size", "loadc_ysize", "setcoef_size", "cand_not_constructing", "loadc_not_constructing"]
+BAD_LOADED = ["eval_size", "iweights_size", "dweights_size", "surpl_scale_size"]
+# only clauses the API documentation announces are exercised (see the \\throws entries of TasmanianSparseGrid.hpp)
 
 
 def history(rnd, label, fam=None, steps=6, with_bad=False, with_copy=False, with_rt=False, with_construct=True,
@@ -177,6 +178,8 @@ def history(rnd, label, fam=None, steps=6, with_bad=False, with_copy=False, with
         if with_bad and rnd.random() < 0.25:
             pool = BAD_ANY + BAD_NONEMPTY + (BAD_LOADED if loaded and not constructing else [])
             w = rnd.choice(pool)
+            if constructing and w in ("cand_not_constructing", "loadc_not_constructing"):
+                w = "load_size"
             if w in ("surpl_scale_size",) and fam not in ("localp",):
                 w = "eval_size" if loaded else "make_dims0"
             L.append("bad " + w)
